@@ -491,7 +491,8 @@ class DefaultParser(Parser):
         try:
             pred = self._read_predicate(context)
         except UndefinedPredicateError as err:
-            if not self.opts['auto_preds']:
+            if not self.opts['auto_preds'] or not hasattr(self.predicates, 'add'):
+                # Cannot declare: option off, or a read-only (frozen) store.
                 raise
             coords = err.coords
         else:
@@ -638,7 +639,8 @@ class StandardParser(DefaultParser, primary=True):
         try:
             pred = self._read_predicate(context)
         except UndefinedPredicateError as err:
-            if not self.opts['auto_preds']:
+            if not self.opts['auto_preds'] or not hasattr(self.predicates, 'add'):
+                # Cannot declare: option off, or a read-only (frozen) store.
                 raise
             coords = err.coords
         else:
